@@ -486,9 +486,9 @@ def decide(ctx, log, flat, rt_meta, flat_rt, same_meta, flat_same):
 
 
 def add_expectation(ctx, rep):
-    if len(ctx.violations) + len(ctx.known_printed) > 6 or "expected" in rep:
+    ctx._c01_expect = getattr(ctx, "_c01_expect", 0) + 1
+    if ctx._c01_expect > 4:
         return rep
-    import struct
     rep = dict(rep)
     try:
         i1 = float.fromhex(rep["jd1"])
